@@ -312,6 +312,8 @@ def _dispatch(t):
 
 
 def run(ctx):
+    from .. import xfeat
+    xfeat.sweep(ctx, "C14")      # cross-feature compositions (pv/xfeat.py)
     tasks = []
     span = 4 if ctx.thorough else 2
     for r in [0, 1, 2, 3]:
@@ -378,6 +380,9 @@ class _Ctx:
 
 
 def replay(case):
+    if isinstance(case, dict) and case.get("xfeat"):
+        from .. import xfeat
+        return xfeat.replay(case, "C14")
     if "readback" in case:
         c = _Ctx()
         readback_children(c)
